@@ -54,8 +54,19 @@ def gen(seed, tier):
                  'delete': 0})
     w = {'new_oid': 8, 'wrong': 2, 'clock': 6, 'reopen': 0, 'rtxn': 0,
          'delete': 0, 'undo': 14 if ck == 'file' else 0, 'txn': 60}
+    if ck != 'default':
+        # packs anywhere in the history (a changes layer given to the
+        # constructor is packed without garbage collection; the lock-step
+        # comparison goes on afterwards, against what a pack of the changes
+        # layer alone may have removed)
+        w['pack'] = 6
     ops = G.gen_history(ctx.subseed(seed, 'demo'), 'demo', n=r.randint(2, 9),
                         noids=noids, weights=w)
+    for op in ops:
+        if op['op'] == 'pack':
+            g = r.choice((None, None, None, False, True))
+            if g is not None:
+                op['gc'] = g
     for lst in (base_ops, ops):
         for op in lst:
             for rec in op.get('recs', ()):
@@ -132,20 +143,27 @@ def run(case):
                 try:
                     d.st.pack(sim.clock.now + 50, referencesf)
                     d.outcomes.append('demopack')
-                except KeyError as e:
-                    # the garbage collection of a temporary changes layer
-                    # follows references in that layer only and gives up
-                    # at the first one that leads into the base; the
-                    # property promises nothing about a pack succeeding,
-                    # only that reads and the base stay as they were
-                    # (checked below)
-                    d.outcomes.append('demopack-refused:' + type(e).__name__)
                 except Exception as e:      # noqa: B902
-                    d.outcomes.append('demopack-raises:' + type(e).__name__)
-                    d.flag('demo-pack-raises', 'pack through the demo '
-                           'storage (changes: %s) raised %s: %s'
-                           % (case['ck'], type(e).__name__, str(e)[:80]))
-                    break
+                    # The garbage collection of a temporary changes layer
+                    # follows references in that layer only and gives up
+                    # (KeyError) at the first one that leads into the
+                    # base; a storage packed to a later time before says
+                    # so.  The property promises nothing about a pack
+                    # succeeding, only that reads and the base stay as
+                    # they were (checked below).  Anything else is a
+                    # pack that cannot be done through the demo storage.
+                    if isinstance(e, KeyError) or (
+                            isinstance(e, ValueError)
+                            and 'lready packed' in str(e)):
+                        d.outcomes.append('demopack-refused:'
+                                          + type(e).__name__)
+                    else:
+                        d.outcomes.append('demopack-raises:'
+                                          + type(e).__name__)
+                        d.flag('demo-pack-raises', 'pack through the demo '
+                               'storage (changes: %s) raised %s: %s'
+                               % (case['ck'], type(e).__name__, str(e)[:80]))
+                        break
                 # current state of every object is unaffected
                 for oid, want in zip(live, before):
                     try:
@@ -170,6 +188,8 @@ def run(case):
                 pushed = d.st
                 d.st = d.st.push()
                 d.issued = []       # a new storage object: a new session
+                # (its changes layer is one made by the constructor)
+                d.demo_kinds = (d.demo_kinds[0], 'default')
                 d.outcomes.append('push')
             if op['op'] == 'undo' and not hasattr(d.st, 'undo'):
                 continue        # e.g. after push(): default changes layer
